@@ -1,18 +1,34 @@
-"""C20 (the comparer accepts equal netlists and rejects structural differences): bounded stand-in on spydrnet.compare Comparer."""
-from props import _designb
-LEVEL = 'exploration'
+"""C20: element-level comparer contracts proved from the real AST (pyvc suite 'compare') + bounded stand-in (native/b_c20.py)."""
+from props import _designb, _pv
+LEVEL = 'other'
 PID = 'C20'
-RULE = ('distinct = distinct abstract design (hash of the AD); non-trivial = hierarchy depth >= 2 and at least one instance with '
-        'EDIF.properties')
 
 
 def run(rep, tier, seed):
-    rep.explanation = 'bounded stand-in only: compare() must return for clone, independent build, EDIF and Verilog write-then-read (of a netlist read from that format); must raise for each of 30 single mutations of an independently built copy'
-    rep.assumptions = ['Tier B: everything outside the stated bounds is unexplored (DESIGN.md 8.12)',
-                       'oracles (canon / elab / occurrence enumeration / Inv) read public attributes only and are calibrated against an AD-level elaborator']
-    fails = _designb.run_designs(rep, PID, tier, seed, RULE, extra_bounds={'mutations_per_design': 30, 'formats': 'EDIF, Verilog (Verilog from the verilog_friendly form of the design); EBLIF not covered', 'profile': 'plain (fully named, library DAG)', 'io_timeout_s': 20})
+    rep.explanation = ('soundness of rejection at element level: "returns normally ==> the examined attributes are equal" proved for '
+                       'Comparer.compare_ports / compare_cables / compare_outer_pins / compare_inner_pins / are_instances_equivalent / '
+                       'are_inner_pins_equivalent over the IR heap model (P; callee contracts used modularly, checking loops need no invariant); '
+                       'pairing of elements by name lookup (compare, compare_libraries, compare_definition, compare_instances incl. properties) '
+                       'and acceptance of faithful copies: bounded stand-in only')
+    failed = _pv.run_suite(rep, PID, 'compare', tier)
+    RULE = ('distinct = distinct abstract design (hash of the AD); non-trivial = hierarchy depth >= 2 and at least one instance with '
+            'EDIF.properties')
+    fails = _designb.run_designs(rep, PID, tier, seed, RULE, extra_bounds={'mutations_per_design': 32, 'formats': 'EDIF, Verilog (Verilog from the verilog_friendly form of the design); EBLIF not covered', 'profile': 'plain (fully named, library DAG)', 'io_timeout_s': 20})
     _designb.report_failures(rep, PID, fails)
+    hit = set(v['key'] for v in rep.violations)
+    for fn, o in failed:
+        rep.violation(o['name'], 'obligation %s is no longer discharged (%s)%s' % (o['name'], (o.get('detail') or '')[:200],
+                      '; the bounded tier reports a failing input for this property in the same run' if hit else ''),
+                      replay={'kind': 'obligation', 'obligation': o['name'], 'function': fn, 'solver_output': o.get('detail')}, nfi=not hit)
+    rep.trusted = ['pyvc VC generator (DESIGN.md 3), z3/cvc5', 'IR heap model and Inv (names are opaque values with an uninterpreted equality)']
+    rep.assumptions = ['both netlists satisfy Inv (proved for API-built netlists by C01/C02)', 'names and directions are plain values (not IR objects)',
+                       'the documented special case for SDN_Assignment_ instance names is taken as specified (only the width field is compared)',
+                       'the name-lookup pairing of elements (get_libraries/get_definitions/... by name) is outside the proved part']
 
 
 def replay(path):
+    import json
+    d = json.load(open(path)); r = d.get('replay') or {}
+    if r.get('kind') == 'obligation':
+        print('replay file names obligation %s; solver output: %s' % (r.get('obligation'), str(r.get('solver_output'))[:300])); return 0
     return _designb.replay(path, PID)
